@@ -109,3 +109,18 @@ def c14_export(d):
     bad = not np.array_equal(hw, stored) if clause == "plain" else not np.array_equal(np.array(kq(tf.constant(wts))), stored)
     return {"status": "confirmed" if bad else "refuted", "observed": obs}
   return {"status": "unsupported"}
+
+
+@replayer("c13_table")
+def c13_table(d):
+  """Is the library class in the custom-object table built by the real utils._add_supported_quantized_objects?"""
+  import importlib
+  from qkeras import utils
+  rp = (d["witness"] or {}).get("__replay__") or {}
+  cls = getattr(importlib.import_module(rp["module"]), rp["class"])
+  table = {}
+  utils._add_supported_quantized_objects(table)
+  ok = table.get(rp["class"]) is cls
+  return {"status": "refuted" if ok else "confirmed",
+          "observed": {"class": rp["class"], "in_table": rp["class"] in table, "table_size": len(table)},
+          "expected": "table[class name] is the class"}
